@@ -23,6 +23,11 @@ CHECKS = {
             'Random histories (<=20/30 ops, each aimed at o or o.inv, at any of up to 4 live instances created by copy()/construction/update from one another) against a reference bijection (OneToOne) or set of pairs (ManyToMany); after every step every live instance is checked on both sides (contents, exact inverse, no empty entries, inv.inv identity, per-key reads), which is what exposes aliasing between instances. FrozenDict: all 14 mutator forms must raise TypeError and leave the content unchanged; hash/eq under two insertion orders; unhashable values; updated/copy/deepcopy/pickle.',
             'Trusts the reference models; popitem and replace-onto-existing-key are only constrained to be consistent; update(**kw) without positional is not generated.',
             'DESIGN.md section 2, C17'),
+    'C02': ('exploration',
+            'model-based testing: Hypothesis-generated dict-API histories on LRI/LRU against an OrderedDict+counters reference; black-box eviction-order probe',
+            'Random configurations (class, max_size, on_miss, initial values) and histories (<=30/80 ops over a key pool of max_size+3, up to 3 live caches created by copy()) against a reference cache; after every step contents, len<=max_size, membership, the three counters, the list of on_miss calls, return values/exception types and ==/!= against dicts and another cache are compared for every live cache; at the end each cache is probed by inserting fresh keys and recording which key disappears, the victim sequence must equal the reference recency order. Exploration is the right level: the history space is unbounded; small pools make evictions and re-insertions frequent (label counts in the evidence).',
+            'Trusts the reference model; iteration order and popitem choice are not compared; counters of a copy are tracked from the values read at creation.',
+            'DESIGN.md section 2, C02'),
 }
 
 NOT_YET = 'check not built yet in this revision of /verif (work in progress; see DESIGN.md section 8)'
